@@ -15,6 +15,7 @@
  * f*(IV or midstate, stream || pad(|stream|)) in the sense of FIPS 180-4 section 5.1.1 / 6.2, for every
  * message length and every split, with f the compression oracle. */
 #define VERIF_MEMCPY_MODEL
+#define HASH_SPEC_WRITE_CONTRACT      /* used by h_sha_compose only (unit replaces sha256_write by its enforced stream contract) */
 #include "hash_spec.h"
 #define memcpy verif_memcpy64
 #include "src/secp256k1.c"
@@ -61,4 +62,48 @@ void h_finalize(void) {
     if (b0 == 0) REACH("finalize: empty message");
     if (b0 > ((uint64_t)1 << 60) && wblk == b1 / 64 - 1 && woff == 56) REACH("finalize: huge message, top length byte watched");
     REACH("finalize end");
+}
+
+/* COMPOSITION LEMMA (lemma harness over the enforced stream contract of sha256_write + the real finalize
+ * body): a hash object started at a block boundary (fresh IV: m = 0, or a midstate after m blocks), then
+ * write(a); write(b); finalize hands the compression function exactly the blocks of
+ *        a || b || 0x80 || 0x00.. || be64(8 (64 m + |a| + |b|))          (FIPS 180-4 section 5.1.1)
+ * numbered m, m+1, ... , each once, in order, for EVERY |a|, |b| and every split; the digest is be32 of the
+ * last compression output.  I.e. SHA-256 as implemented = f* over the padded message, independent of
+ * the write split (f = compression oracle; its equality with FIPS 6.2.2 is C05.sha256_compress_fips /
+ * the assumed residue). */
+void h_sha_compose(void) {
+    INPUT(uint64_t, m); INPUT(size_t, la); INPUT(size_t, lb);
+    INPUT(uint64_t, wblk); INPUT(unsigned, woff); INPUT(unsigned, ob);
+    secp256k1_sha256 h; secp256k1_hash_ctx hc; unsigned char out[32], *d;
+    uint64_t b0, total, b1, p, bits;
+    __CPROVER_assume(m <= ((uint64_t)1 << 54) && la <= ((size_t)1 << 48) && lb <= ((size_t)1 << 48));   /* total < 2^61 bytes: the SHA-256 length limit (finalize precondition) */
+    __CPROVER_assume(woff < 64 && ob < 32 && wblk <= (UINT64_MAX >> 6));
+    d = malloc(la + lb ? la + lb : 1); __CPROVER_assume(d != NULL);
+    b0 = 64 * m; h.bytes = b0;
+    hc.fn_sha256_compression = verif_compress;
+    COMPLOG_RESET(); g_c_blocks = m; g_cw_blk = wblk; g_cw_off = woff; g_sk = ob / 4;   /* the contract speaks about ONE state word: the one digest byte ob comes from */ g_mc_calls = 0; g_mc_base = NULL; g_mc_big = NULL;
+
+    secp256k1_sha256_write(&hc, &h, d, la);
+    secp256k1_sha256_write(&hc, &h, d + la, lb);
+    secp256k1_sha256_finalize(&hc, &h, out);
+
+    total = b0 + la + lb; b1 = h.bytes; bits = total << 3;
+    __CPROVER_assert(b1 % 64 == 0 && b1 >= total + 9 && b1 - (total + 9) < 64, "C05 sha256 composition: padded length is the smallest multiple of 64 >= length + 9");
+    __CPROVER_assert(g_c_blocks == b1 / 64 && g_c_bad == 0, "C05 sha256 composition: exactly the blocks m .. padded/64 - 1 are compressed");
+    if (m <= wblk && wblk < b1 / 64) {
+        p = wblk * 64 + woff;
+        __CPROVER_assert(g_cw_hit == 1, "C05 sha256 composition: every block of the padded message is compressed exactly once");
+        if (p < total) __CPROVER_assert(g_cw_byte == d[p - b0], "C05 sha256 composition: message bytes appear at their stream position, for every split");
+        else if (p == total) __CPROVER_assert(g_cw_byte == 0x80, "C05 sha256 composition: 0x80 follows the message");
+        else if (p < b1 - 8) __CPROVER_assert(g_cw_byte == 0x00, "C05 sha256 composition: zero fill up to the length field");
+        else __CPROVER_assert(g_cw_byte == (unsigned char)(bits >> (8 * (b1 - 1 - p))), "C05 sha256 composition: length field is be64 of the bit length including the midstate prefix");
+    } else {
+        __CPROVER_assert(g_cw_hit == 0, "C05 sha256 composition: no other block is compressed");
+    }
+    __CPROVER_assert(g_c_calls >= 1 && out[ob] == (unsigned char)(g_c_out[ob / 4] >> (8 * (3 - ob % 4))), "C05 sha256 composition: digest is be32 of the last compression output");
+    if (m == 0 && la == 3 && lb == 0 && wblk == 0 && woff == 63) REACH("compose: 'abc'-sized message, last length byte");
+    if (la % 64 == 5 && lb > 1000 && wblk == m + 3 && g_cw_hit) REACH("compose: unaligned split, block 3");
+    if ((la + lb) % 64 == 56 && la > 0 && lb > 0) REACH("compose: length 56 mod 64 (extra padding block)");
+    REACH("compose end");
 }
